@@ -10,6 +10,9 @@ objects whose values are read directly from the machine's objects (strict varian
 both operands); string.Formatter with those values for text templates; and for the histories: (1) after an operation that
 changed a location the evaluation read, the subscription future must be done, (2) a re-evaluate loop like
 config_player._update_subscription must hold the value a fresh evaluation gives.
+Conditional event handlers (harness/common/cond_c16.py, Model/CondDispatch.lean): handlers registered as `event{condition}` and
+conditional variable_player / event_player entries (machine-wide and in two modes) on a real machine, posts of every kind; oracle:
+a handler / entry acts iff CPython's value of its condition text is true on the values read from the machine at ITS turn.
 """
 import ast
 import asyncio
@@ -22,9 +25,9 @@ ID = "C16"
 LEAN_MODULES = ["MpfVerif.Props.C16"]
 PROPS_FILE = "MpfVerif/Props/C16.lean"
 MANIFEST = {
-  "text": "Proof on a Lean model of the template evaluator (expression AST of the supported grammar - unary / binary / comparison / and-or / conditional / tuple / attribute / subscript / slice - over int / exact dyadic float / bool / str / None / tuples / placeholder objects of every root: machine incl. machine.time, settings, current_player, players[n], game, mode, device.<collection>.<name>; locations can be absent = the placeholder raises ValueError: not in a game, player not in the game, unknown device attribute; `eval` transcribes BasePlaceholderManager._eval_* including the subscription list and a log of the locations read; `py` is Python's semantics for the same grammar, strict = all and/or operands evaluated, lazy = Python's short-circuit; text templates = literal pieces and {expression:spec} fields), all by structural induction over every expression / piece list and every environment: (tables_correct) the operator tables the model dispatches through equal the OPERATORS / BOOL_OPERATORS / COMPARISONS dict literals regenerated from placeholder_manager.py on every run (`decide`; `in`, `not in`, `is` and every operator outside them are rejected); (reads_subscribed, text_reads_subscribed) every location read during an evaluation is in the returned subscription list, on value and on error paths; (fresh, text_fresh) if another environment has the same parameters and placeholder objects and agrees - value or absence - on every subscribed location, the evaluation gives the identical result, so a template that is not notified cannot be stale; (eval_is_python, text_is_python) in both modes the evaluator's outcome is the strict Python outcome seen through MPF's error mapping: Python's value, or the default exactly when Python raises TypeError (also from indexing / slicing / str %) / a name is missing or a ValueError is raised (evaluate) / an attribute is read from a falsy parent (subscribe) / the location is absent, a rejection for every other exception and for the unsubscribable roots mode and game when subscribing; (all_operands_agree_with_short_circuit, value_is_pythons) whenever the strict evaluation yields a value, Python's short-circuit evaluation yields the same value. The model and its operator semantics (floor division and modulo with Python's sign rules, ** with negative and large exponents, int/float/bool mixing, string comparison / concatenation / repetition, str %, indexing and slicing with negative and out-of-range bounds) are tied to the code and to CPython by a correspondence run: generated expressions up to size 12 and text templates evaluated by the real evaluate / evaluate_and_subscribe on a real machine in generated states (no game / game / several players / modes running), by the Lean driver (eval in both modes, py strict, py lazy, read log, text) and by CPython eval of the same text; and change histories over all roots checking that the future completes after every change of something read (game start and end, player added, turn rotation, mode start / stop, device changes, the clock) and that a re-evaluate loop holds the fresh value.",
-  "note": "Trusted: Lean kernel + {propext, Classical.choice, Quot.sound}; the hand-written model Model/Template.lean incl. its operator semantics (validated against CPython on every run, not proved); harness/corr/C16.py table translator; event delivery of machine_var_/player_ events (C01) and DeviceMonitor. Documented deviation from Python: all and/or operands are evaluated. Outside the model (answered `unmodelled`, judged by the CPython oracle alone): float results that are not exact in a double, non-integer or huge exponents, tuple comparison / repetition, str % conversions other than %s %d %%, format specs other than empty and d, !r/!s conversions, dict parameters, subscripts of machine.time. Chained comparisons and operators outside the tables are rejected by MPF (checked). mode.* and game.* cannot be subscribed at all (evaluate only; reported).",
-  "technique": "Lean 4 theorems (structural induction on the expression / piece list for fresh / reads_subscribed / eval_is_python / strict-vs-short-circuit, `decide` on regenerated tables) + differential correspondence against the real evaluator on a real machine driven through game / player / mode / device histories, with CPython eval and string.Formatter as oracle",
+  "text": "Proof on a Lean model of the template evaluator (expression AST of the supported grammar - unary / binary / comparison / and-or / conditional / tuple / attribute / subscript / slice - over int / exact dyadic float / bool / str / None / tuples / placeholder objects of every root: machine incl. machine.time, settings, current_player, players[n], game, mode, device.<collection>.<name>; locations can be absent = the placeholder raises ValueError: not in a game, player not in the game, unknown device attribute; `eval` transcribes BasePlaceholderManager._eval_* including the subscription list and a log of the locations read; `py` is Python's semantics for the same grammar, strict = all and/or operands evaluated, lazy = Python's short-circuit; text templates = literal pieces and {expression:spec} fields), all by structural induction over every expression / piece list and every environment: (tables_correct) the operator tables the model dispatches through equal the OPERATORS / BOOL_OPERATORS / COMPARISONS dict literals regenerated from placeholder_manager.py on every run (`decide`; `in`, `not in`, `is` and every operator outside them are rejected); (reads_subscribed, text_reads_subscribed) every location read during an evaluation is in the returned subscription list, on value and on error paths; (fresh, text_fresh) if another environment has the same parameters and placeholder objects and agrees - value or absence - on every subscribed location, the evaluation gives the identical result, so a template that is not notified cannot be stale; (eval_is_python, text_is_python) in both modes the evaluator's outcome is the strict Python outcome seen through MPF's error mapping: Python's value, or the default exactly when Python raises TypeError (also from indexing / slicing / str %) / a name is missing or a ValueError is raised (evaluate) / an attribute is read from a falsy parent (subscribe) / the location is absent, a rejection for every other exception and for the unsubscribable roots mode and game when subscribing; (all_operands_agree_with_short_circuit, value_is_pythons) whenever the strict evaluation yields a value, Python's short-circuit evaluation yields the same value. The model and its operator semantics (floor division and modulo with Python's sign rules, ** with negative and large exponents, int/float/bool mixing, string comparison / concatenation / repetition, str %, indexing and slicing with negative and out-of-range bounds) are tied to the code and to CPython by a correspondence run: generated expressions up to size 12 and text templates evaluated by the real evaluate / evaluate_and_subscribe on a real machine in generated states (no game / game / several players / modes running), by the Lean driver (eval in both modes, py strict, py lazy, read log, text) and by CPython eval of the same text; and change histories over all roots checking that the future completes after every change of something read (game start and end, player added, turn rotation, mode start / stop, device changes, the clock) and that a re-evaluate loop holds the fresh value. Conditional event handlers (last clause of the property; Model/CondDispatch.lean = EventManager._run_handlers / _run_handlers_sequential as far as a condition can observe them: a left fold of one turn per handler over a world of current values, relayed kwargs, call log and stop flag; handlers with priority, optional condition, own kwargs, steps = set / add a location or post an event, each step with its own optional condition = the items of a variable_player / event_player entry, a returned dict (relay) or False (boolean)), for every post kind, world and handler list: (dispatch_is_serial) dispatching pre ++ post is dispatching pre and then post from the world pre left - no verdict travels from one turn to the next; (handler_runs_iff_condition_true_at_its_turn, conditional_handler_acts_on_current_values) a handler of the list pre ++ h :: post (distinct ids) is called iff the post is still running after pre and Python's value of its condition over the values the handlers before it left, the kwargs relayed so far and its own kwargs is true (condition_verdict_is_pythons: bool(value), False for None / TypeError / missing name / absent location); (skipped_handler_has_no_effect); (entry_items_decided_on_current_values) the items of one config-player entry are decided one after the other on the values the items before left; (handlers_stay_priority_ordered) add_handler keeps the list the dispatcher walks sorted by priority. Tied by a correspondence run: generated groups (a machine config with variable_player / event_player entries keyed cevN{condition} machine-wide, in a non-game mode and in a game mode, with per-variable / per-target conditions, 1-3 condition texts per group so that handlers share one template object) x cases (pre-state, 0-4 plain handlers registered as cevN{condition} with priorities around the mode priorities, own kwargs, callbacks changing machine variables / the setting / player variables / the counter value and enabled flag, returning relay dicts or False; one post / post_relay / post_boolean / post_queue with kwargs): every RegisteredHandler of the event is wrapped in the harness process to record entry / exit snapshots; the Lean dispatcher must call the same handlers, fire the same events and leave the same values and relayed kwargs.",
+  "note": "Trusted: Lean kernel + {propext, Classical.choice, Quot.sound}; the hand-written model Model/Template.lean incl. its operator semantics (validated against CPython on every run, not proved); harness/corr/C16.py table translator; event delivery of machine_var_/player_ events (C01) and DeviceMonitor. Documented deviation from Python: all and/or operands are evaluated. Outside the model (answered `unmodelled`, judged by the CPython oracle alone): float results that are not exact in a double, non-integer or huge exponents, tuple comparison / repetition, str % conversions other than %s %d %%, format specs other than empty and d, !r/!s conversions, dict parameters, subscripts of machine.time. Chained comparisons and operators outside the tables are rejected by MPF (checked). mode.* and game.* cannot be subscribed at all (evaluate only; reported; they are not in the property's list machine / player / device / settings). Conditional handlers: the order of the handlers of one event is taken from the implementation's list (priority order is C01's statement; the model only checks it is sorted); _min_priority blocking, handler removal during a dispatch and queue handlers that wait are not modelled; a condition whose evaluation raises (ZeroDivisionError ...) or is outside the model ends the claims for that post. A player variable set to a tuple / list / dict posts no event (documented by mpf, outside the property's value universe): counted, not claimed. Observed, not claimed: an event_player target `name{condition}` whose condition contains a parenthesis is taken for a dynamic event name and the condition is silently dropped.",
+  "technique": "Lean 4 theorems (structural induction on the expression / piece list for fresh / reads_subscribed / eval_is_python / strict-vs-short-circuit, `decide` on regenerated tables) + differential correspondence against the real evaluator on a real machine driven through game / player / mode / device histories, with CPython eval and string.Formatter as oracle; conditional handlers: fold model + append / membership lemmas, real dispatcher observed through wrapped handlers",
   "translated": True,
 }
 RULE = ("per case: a real machine in the state reached by a generated operation history (<= 10 cases per machine; operations: "
@@ -36,19 +39,30 @@ RULE = ("per case: a real machine in the state reached by a generated operation 
         "or subscript, unary / binary incl. ** with negative and large exponents and str %, comparisons incl. the rejected "
         "in / is, and-or, conditional, tuples, indexing, slices, attribute of a plain value) or a text template of 1-3 pieces "
         "with format specs, then one more operation biased to change a location that was read; non-trivial = the expression has "
-        "an operator node; distinct = (text, parameters, values of all locations)")
+        "an operator node; distinct = (text, parameters, values of all locations).  Conditional handlers: per group one machine "
+        "config with 2-6 conditional variable_player / event_player entries over 1-3 condition texts (comparisons of 1-3 chosen "
+        "locations / kwargs with small constants, and-or, not, conditional, arithmetic; attribute or subscript access), 8 cases per "
+        "group: idempotent pre-state (game on / off, modes, every variable), 0-4 plain conditional handlers whose actions are "
+        "biased to the locations the conditions read, post kind and kwargs; non-trivial = at least two handlers and one condition; "
+        "counted: turns reached after a change, verdicts that differ from the start of the post (same text earlier in the list)")
 TRUSTED = [
     "Model/Template.lean is hand-written; its operator semantics (applyBin / applyCmp / applyUn / truthy / pyIndex / pySlice / "
     "fmtScan / fmtVal) are validated against CPython by the run, not derived from it",
     "modelled, not verified: event delivery for machine_var_*/player_* events, DeviceMonitor attribute futures, Util.any, "
     "asyncio.sleep; the values of the locations are read from the machine's objects by the harness (snapshot)",
     "the clock is TestClock.get_datetime patched in the harness process to follow the virtual loop time",
+    "conditional handlers: Model/CondDispatch.lean is hand-written (pinned: EventManager._run_handlers, _run_handlers_sequential, "
+    "add_handler, get_event_and_condition_from_string, ConfigPlayer.register_player_events / config_play_callback, "
+    "VariablePlayer.play / _set_variable, EventPlayer.play); the RegisteredHandler entries of the posted event are replaced by "
+    "recording copies in the harness process; the values at a handler's turn are the exit snapshot of the previous handler that ran",
 ]
 ASSUMPTIONS = ["floats are dyadic rationals; a float result that is not exact in a double is outside the model; strings are ASCII words",
                "chained comparisons, unsupported operators, calls, lists, dicts are rejected by MPF (checked: never a value)",
                "all and/or operands are evaluated (documented deviation from Python's short-circuit)",
-               "player variables are set to int / float / str values (Player posts no event for other types); setting a variable "
-               "to an equal value (1 -> True -> 1.0) is not a change",
+               "player variables are set to int / float / bool / str / None values (a tuple / list / dict value posts no event by mpf's "
+               "documented design: counted, not claimed); setting a variable to an equal value (1 -> True -> 1.0) is not a change",
+               "conditional handlers: nothing but the handlers of the post runs between two turns (no await in _run_handlers; queue "
+               "handlers of the generated cases do not wait)",
                "mode.* and game.* are evaluate-only: subscribing them is rejected (they have no subscribe())"]
 
 
@@ -99,6 +113,7 @@ from harness.common.tmpl_c16 import (ABSENT, EVENTS, FLOATS, INTS, LOCS, PVARS, 
 from harness.common.shrink import ddmin
 
 SET_VALS = INTS + ["a", "ab", 1.5, -2.25]
+PSET_VALS = SET_VALS + [None, None, True, (1, 2)]      # player variables: None is a simple value too; a tuple is "complex" (no claim)
 MACHINE_LEN = 10          # cases per real machine (the op history since boot is the replay input)
 
 
@@ -109,6 +124,8 @@ def ops_for(r, loc):
     """operations likely to change the value at `loc`"""
     p = loc.split(".")
     v = r.choice(SET_VALS)
+    if p[0] in ("current_player", "players", "game"):
+        v = r.choice(PSET_VALS)
     if p[0] == "machine" and p[1] == "time":
         return [("advance", r.choice([0.5, 1, 1, 2.5, 60, 60, 3600]))]
     if p[0] == "machine":
@@ -330,10 +347,18 @@ def check_case(ctx, real, model, case, sample=True):
             ctx.count("history_change_of_read_location")
             for l in hit:
                 ctx.count("changed_read_root_" + l.split(".")[0])
+            if not done and change[0] == "pvar" and isinstance(change[3], (tuple, list, dict)):
+                # documented by mpf: "More complex player variables (lists, dicts, etc.) do not get this event posted" - and
+                # outside the property's value universe (int / float / bool / str / None): observed, not claimed
+                ctx.count("observed_outside_property_complex_player_var_not_notified")
+                return
             if not done:
                 where = ".".join(hit[0].split(".")[:2]) if hit[0].startswith(("device.", "machine.time")) else hit[0].split(".")[0]
-                ctx.fail("stale:%s:%s:%s" % (where, "text" if kind == "text" else
-                                             ("subscript" if ("%s[" % hit[0].split(".")[0]) in text else "attribute"), change[0]),
+                sig = "stale:%s:%s:%s" % (where, "text" if kind == "text" else
+                                          ("subscript" if ("%s[" % hit[0].split(".")[0]) in text else "attribute"), change[0])
+                if change[0] == "pvar" and change[3] is None:
+                    sig = "stale:player-variable-set-to-None"      # one defect, one signature (Player.__setattr__ posts no event)
+                ctx.fail(sig,
                          dict(rep), {"read": sorted(set(reads)), "changed": hit, "future_done": done, "was_done_before": was_done})
                 return
         # the loop must hold the value a fresh evaluation gives now
@@ -363,6 +388,271 @@ def check_case(ctx, real, model, case, sample=True):
             real.settle()
         except BaseException:
             real.broken = True
+
+
+
+# ---------------------------------------------------------------------------------------------------------------------
+# conditional event handlers (`event{condition}`) and conditional config-player entries
+# ---------------------------------------------------------------------------------------------------------------------
+from harness.common import cond_c16 as cd
+
+
+def cond_model_lines(obs, case):
+    """the handlers of the event in the implementation's list order, as driver lines; ids = position in that order"""
+    lines = ["hclear"]
+    for k, v in case["post"]["kwargs"].items():
+        lines.append("kw %s %s" % (k, " ".join(val_tokens(v))))
+    for i, h in enumerate(obs["order"]):
+        typ, d = h["desc"]
+        c = d["cond"]
+        lines.append(("hreg %d %d %s" % (i, h["prio"], " ".join(tokens(c)) if c is not None else "")).rstrip())
+        for k, v in h["hkw"].items():
+            lines.append("hkw %d %s %s" % (i, k, " ".join(val_tokens(v))))
+        if typ == "plain":
+            for a in d["acts"]:
+                loc, v = {"mvar": lambda: ("machine." + a[1], a[2]), "setting": lambda: ("settings.s1", a[2]),
+                          "pvar": lambda: ("current_player." + a[1], a[2]), "counter": lambda: ("device.counters.c1.value", a[1]),
+                          "cen": lambda: ("device.counters.c1.enabled", a[1])}[a[0]]()
+                lines.append("hset %d %s %s" % (i, loc, " ".join(val_tokens(v))))
+            if isinstance(d["ret"], dict):
+                for k, v in d["ret"].items():
+                    lines.append("hret %d %s %s" % (i, k, " ".join(val_tokens(v))))
+            elif d["ret"] is False:
+                lines.append("hfalse %d" % i)
+        elif typ == "vp":
+            for it in d["items"]:
+                loc = ("current_player." if it[2] in ("set", "add") else "machine.") + it[0]
+                ct = (" " + " ".join(tokens(it[1]))) if it[1] is not None else ""
+                if it[2] in ("set", "set_machine"):
+                    lines.append("hset %d %s i %d%s" % (i, loc, it[3], ct))
+                else:
+                    lines.append("hadd %d %s %d%s" % (i, loc, it[3], ct))
+        else:
+            for it in d["items"]:
+                lines.append(("hfire %d %s %s" % (i, it[0], " ".join(tokens(it[1])) if it[1] is not None else "")).rstrip())
+    return lines
+
+
+def check_cond(ctx, real, model, group, case, sample=True):
+    """one post on the machine of `group`: the oracle (a conditional handler / entry acts iff its condition is true on the
+    values at ITS turn) and the comparison with the Lean dispatcher"""
+    obs = real.run_case(case)
+    kind = case["post"]["kind"]
+    rep = {"kind": "cond", "group": repr(group), "case": repr(case)}
+    order = obs["order"]
+    n_cond = sum(1 for h in order if h["desc"][1]["cond"] is not None)
+    ctx.evaluated({"group": repr(group["entries"]), "case": repr(case)}, n_cond >= 1 and len(order) >= 2, sample=sample)
+    ctx.count("cond_cases")
+    ctx.count("cond_post_" + kind)
+    ctx.count("cond_state_" + ("game" if case["pre"][0][1] else "nogame"))
+    # ---- oracle: walk the handlers in the order of the implementation's list; the values at a handler's turn are the values
+    # the last handler that ran left (its exit snapshot, read from the machine), the kwargs those of the post updated by relays
+    kw = dict(case["post"]["kwargs"])
+    kw0 = dict(kw)
+    state = obs["env0"]
+    log = list(obs["log"])
+    expect_fired = []
+    claims = True
+    for pos, h in enumerate(order):
+        typ, d = h["desc"]
+        merged = dict(kw)
+        merged.update(h["hkw"])
+        want = cd.verdict(d["cond"], state, merged)
+        ctx.count("cond_handler_" + typ)
+        if want in ("crash", "unmodelled"):
+            ctx.count("cond_verdict_" + want)
+            claims = False
+            break
+        ran = bool(log) and log[0]["hid"] == h["hid"]
+        if d["cond"] is not None:
+            ctx.count("cond_verdict_true" if want else "cond_verdict_false")
+            first = cd.verdict(d["cond"], obs["env0"], dict(kw0, **h["hkw"]))
+            if state != obs["env0"] or kw != kw0:
+                ctx.count("cond_turn_after_a_change")
+            if first != want:
+                ctx.count("cond_verdict_differs_from_start_of_post")
+                if any(o["desc"][1]["cond"] == d["cond"] for o in order[:pos]):
+                    ctx.count("cond_verdict_differs_same_text_earlier")
+        if want != ran:
+            ctx.fail("stale-handler:%s:%s:%s" % (typ, kind, "ran-on-false" if ran else "skipped-on-true"), rep,
+                     {"handler": h["hid"], "condition": None if d["cond"] is None else cd.cond_text(d["cond"]),
+                      "values_at_its_turn": repr(state["vals"]), "kwargs_at_its_turn": repr(merged),
+                      "condition_there": want, "ran": ran, "values_at_post": repr(obs["env0"]["vals"])})
+            return
+        if not ran:
+            continue
+        rec = log.pop(0)
+        if rec["out"] is None:            # the handler raised
+            claims = False
+            break
+        if rec["in"] != state:
+            ctx.count("cond_entry_values_differ_from_previous_exit")
+        if typ == "vp" and d["where"] != "g" and not real.m.modes[d["where"]].active:
+            pass
+        elif typ == "vp":
+            sim = dict(rec["in"]["vals"])
+            ok = True
+            for it in d["items"]:
+                v = cd.verdict(it[1], {"vals": sim, "objs": rec["in"]["objs"]}, rec["kw"])
+                if v in ("crash", "unmodelled"):
+                    ok = False
+                    break
+                if it[1] is not None:
+                    ctx.count("cond_item_true" if v else "cond_item_false")
+                    if v != cd.verdict(it[1], rec["in"], rec["kw"]):
+                        ctx.count("cond_item_differs_from_entry")
+                if v:
+                    cd.apply_item(sim, it)
+            if not ok:
+                claims = False
+                break
+            if sim != rec["out"]["vals"]:
+                ctx.fail("stale-entry:variable_player:%s" % kind, rep,
+                         {"handler": h["hid"], "values_on_entry": repr(rec["in"]["vals"]), "expected_on_exit": repr(sim),
+                          "on_exit": repr(rec["out"]["vals"])})
+                return
+        elif typ == "ep":
+            for it in d["items"]:
+                v = cd.verdict(it[1], rec["in"], rec["kw"])
+                if v in ("crash", "unmodelled"):
+                    claims = False
+                    break
+                if v:
+                    expect_fired.append(it[0])
+            if not claims:
+                break
+        state = rec["out"]
+        if kind == "relay" and isinstance(rec["res"], dict):
+            kw.update(rec["res"])
+        if kind == "boolean" and rec["res"] is False:
+            ctx.count("cond_boolean_stopped")
+            break
+    if not claims:
+        ctx.count("cond_no_claim")
+        return
+    if obs["crashed"]:
+        ctx.fail("dispatch-crash:%s" % kind, rep, {"exception": obs["crashed"]})
+        return
+    if log:
+        ctx.count("cond_log_leftover")       # a handler ran out of list order: not this property's business (C01)
+    if sorted(obs["fired"]) != sorted(expect_fired):
+        ctx.fail("stale-entry:event_player:%s" % kind, rep, {"fired": obs["fired"], "expected": expect_fired})
+        return
+    # ---- the model -------------------------------------------------------------------------------------------------
+    if model is None:
+        return
+    model_set_env(model, dict(obs["env0"], params={}), {})
+    for line in cond_model_lines(obs, case):
+        if model.ask(line) != "ok":
+            raise InfraError("model rejected %s" % line)
+    mo = model.ask("order")
+    ctx.compare(dict(rep, what="order"), "order" + "".join(" %d" % i for i in range(len(order))), mo)
+    ans = model.ask("dispatch %s %s" % (kind, " ".join(cd.CLOCS)))
+    if ans == "bad-op":
+        raise InfraError("model dispatch")
+    if ans.startswith("unmodelled"):
+        ctx.count("skipped_unmodelled_model")
+        return
+    ids = {h["hid"]: i for i, h in enumerate(order)}
+    vals = obs["env1"]["vals"]
+    impl = "ok | ran%s | fired%s | vals%s | kw%s" % (
+        "".join(" %d" % ids[r["hid"]] for r in obs["log"]), "".join(" " + t for t in obs["fired"]),
+        "".join(" " + ("ABSENT" if vals[l] is ABSENT else show_val(vals[l])) for l in cd.CLOCS),
+        "".join(" %s=%s" % (k, show_val(kw[k])) for k in ("x", "y", "z") if k in kw) if kind == "relay" else
+        "".join(" %s=%s" % (k, show_val(kw0[k])) for k in ("x", "y", "z") if k in kw0))
+    ctx.compare(dict(rep, what="dispatch"), impl, ans)
+
+
+def run_cond_stream(ctx, n_groups, per_group):
+    model = None if getattr(ctx, "model_unavailable", False) else leanproc.LeanProc(ID)
+    try:
+        for g in range(n_groups):
+            r = ctx.rng("cond-group", g)
+            group = cd.gen_group(r)
+            try:
+                real = cd.CondReal(group)
+            except Exception as ex:
+                ctx.count("cond_boot_rejected")
+                ctx.notes.setdefault("cond_boot_rejected_examples", []).append(repr(ex)[:300]) \
+                    if len(ctx.notes.get("cond_boot_rejected_examples", [])) < 3 else None
+                continue
+            ctx.count("machines_booted")
+            try:
+                for j in range(per_group):
+                    if real.broken:
+                        real.close()
+                        real = cd.CondReal(group)
+                        ctx.count("machines_booted")
+                    case = cd.gen_case(ctx.rng("cond-case", g, j), group)
+                    before = len(ctx.failures)
+                    check_cond(ctx, real, model, group, case)
+                    if len(ctx.failures) > before:
+                        shrink_cond(ctx, before, group, case)
+            finally:
+                real.close()
+    finally:
+        if model is not None:
+            model.close()
+
+
+class _Probe:
+    def __init__(self):
+        self.failures = []
+    def fail(self, s, c, d):
+        self.failures.append({"signature": s, "case": c, "detail": d})
+    def count(self, *a, **k):
+        pass
+    def evaluated(self, *a, **k):
+        pass
+    def compare(self, *a, **k):
+        return True
+
+
+def cond_fails(group, case, sig):
+    real = cd.CondReal(group)
+    try:
+        p = _Probe()
+        check_cond(p, real, None, group, case, sample=False)
+        return [f for f in p.failures if f["signature"] == sig]
+    finally:
+        real.close()
+
+
+def shrink_cond(ctx, idx, group, case):
+    """drop config entries, plain handlers, actions and pre-operations one at a time while the same failure remains"""
+    sig = ctx.failures[idx]["signature"]
+    try:
+        best = None
+        g, c = group, case
+        if not cond_fails(g, c, sig):
+            return                  # depends on what earlier cases left on the machine: keep the unshrunk report
+        budget = 40
+        for what in ("entries", "handlers", "pre"):
+            i = 0
+            while budget > 0:
+                seq = g["entries"] if what == "entries" else c[what]
+                if i >= len(seq) or (what == "pre" and i < 3 and False):
+                    break
+                if what == "entries":
+                    g2, c2 = dict(g, entries=seq[:i] + seq[i + 1:]), c
+                else:
+                    g2, c2 = g, dict(c, **{what: seq[:i] + seq[i + 1:]})
+                budget -= 1
+                try:
+                    res = cond_fails(g2, c2, sig)
+                except Exception:
+                    res = None
+                if res:
+                    g, c, best = g2, c2, res
+                else:
+                    i += 1
+        if best:
+            del ctx.failures[idx:]
+            ctx.failures.append({"signature": sig, "case": util.canon(best[0]["case"]), "detail": util.canon(best[0]["detail"])})
+    except InfraError:
+        raise
+    except Exception:
+        pass
 
 
 E_MA = ("a", ("v", "machine"), "a")
@@ -555,10 +845,28 @@ def run(ctx):
                 e = tame(gen_expr(r, r.choice([2, 3, 4, 5, 6, 8, 10, 12])))
                 yield r, {"kind": "expr", "expr": e, "params": gen_params(r)}, None
     run_stream(ctx, stream())
+    run_cond_stream(ctx, ctx.n(200, 1500), 8)
+    ctx.notes["observations_not_claimed"] = [
+        "a condition-driven config-player entry over mode.* / game.* (`\"{mode.m1.active}\": ...`) fails the boot: ModePlaceholder "
+        "has no subscribe() ('subscribe is not a valid mode name'), game is a plain object ('Missing variable game' outside a "
+        "game); in `event{condition}` handlers (evaluate only) both work.  mode / game are not in the property's list",
+        "an event_player target `name{condition}` whose condition contains a parenthesis is taken for a dynamic event name: the "
+        "condition is dropped silently and nothing sensible is posted",
+        "a player variable set to a tuple / list / dict posts no player_<name> event (documented): a subscribed template reading it "
+        "is not re-evaluated (counter observed_outside_property_complex_player_var_not_notified)"]
 
 
 def replay(ctx, rep):
     case = rep["case"]
+    if case.get("kind") == "cond":
+        glb = {"ABSENT": ABSENT}
+        group, c = eval(case["group"], glb), eval(case["case"], glb)
+        real = cd.CondReal(group)
+        try:
+            check_cond(ctx, real, None, group, c, sample=False)
+        finally:
+            real.close()
+        return
     if "expr" not in case:
         real = Real()
         try:
